@@ -138,6 +138,11 @@ def run_array(check, net, host, field, exprs, expected, meta):
 	for size in range(1, max_size + 1):
 		for _ in range(3 if check.tier == 'quick' else 12):
 			subsets.append([rng.choice(variants) for _ in range(size)])      # with replacement: equal keys occur
+	# equal keys systematically (first, in the middle, last), whatever the random subsets hold
+	for variant in variants[:6]:
+		subsets.append([variant, variant])
+	subsets.append([variants[0], variants[0], variants[-1]])
+	subsets.append([variants[0], variants[-1], variants[-1]])
 	for entries in subsets:
 		keys = [codec.sort_key_of(net, array_type, e) for e in entries]
 		distinct = len(set(keys)) == len(keys)
@@ -312,7 +317,7 @@ def nested_scenario(check, net, host, field):
 				check.fail(signature('nested-sort', f'{wrapper.name}.{member.name}', codec.render(ordered)),
 					f'{net.name}.{wrapper.name}: sort() leaves {member.name}.{field.name} (a {host.name}) '
 					f'{"in ascending key order" if after_keys == sorted(keys) else "NOT in ascending key order"} and serialize() '
-					f'{"succeeds" if serialized[0] == "ok" else "fails: " + str(serialized[1])[:120]}',
+					f'{"succeeds" if serialized[0] == "ok" else "fails: " + str(serialized[1:])[:120]}',
 					{'network': net.name, 'class': wrapper.name, 'member': member.name, 'held': host.name, 'entries': codec.render(ordered)})
 
 
